@@ -5,6 +5,7 @@ import (
 	"go/token"
 	"go/types"
 	"sort"
+	"strings"
 
 	"golang.org/x/tools/go/ssa"
 )
@@ -86,6 +87,39 @@ func runC14(p *Prog, r *Report, tier string) {
 			r.Check(guarded, "R-CLOSE.guard", fnKey(cl)+": "+what, p.instrPos(in), "only on the false edge of isClosed.Swap(true): executed at most once",
 				what+" is not dominated by the 'was not closed yet' edge of isClosed.Swap(true): a second or concurrent close panics / double-closes", true)
 		})
+		// ... and the first closer does both, whatever happens in between: after the false edge of the Swap no return is
+		// reachable before close(stopCh) and conn.Close() (an early return after a failing conn.Close() leaves the background
+		// goroutines running with isClosed already true: every later Close blocks in wg.Wait())
+		var swapFalse *ssa.BasicBlock
+		eachInstr(cl, func(in ssa.Instruction) {
+			if i, ok := in.(*ssa.If); ok {
+				if c, ok := i.Cond.(*ssa.Call); ok && strings.HasSuffix(calleeName(&c.Call), ".Swap") {
+					swapFalse = i.Block().Succs[1]
+				}
+			}
+		})
+		if swapFalse != nil {
+			for _, what := range []string{"close(stopCh)", "connToCollector.Close()"} {
+				what := what
+				q := &pathQuery{discharge: func(in ssa.Instruction) bool {
+					c := callOf(in)
+					if c == nil {
+						return false
+					}
+					if what == "close(stopCh)" {
+						b, ok := c.Value.(*ssa.Builtin)
+						return ok && b.Name() == "close" && p.chanIdent(c.Args[0]) == "field:pkg/exporter.ExportingProcess.stopCh"
+					}
+					return c.IsInvoke() && c.Method.Name() == "Close" && isFieldLoad(c.Value, "pkg/exporter.ExportingProcess.connToCollector")
+				}}
+				trail, bad := q.findFromBlock(swapFalse)
+				if bad {
+					r.Violation("R-CLOSE.complete", fnKey(cl)+": the first closer always reaches "+what, p.pos(cl.Pos()), "a return is reachable after isClosed was set but before "+what+": the close is left half done (background goroutines keep running / the socket stays open) and no later call can finish it; path "+p.describePath(cl, trail))
+				} else {
+					r.OK("R-CLOSE.complete", fnKey(cl)+": the first closer always reaches "+what, p.pos(cl.Pos()), "every path from the 'not closed yet' edge passes it", true)
+				}
+			}
+		}
 		if n < 2 {
 			r.Undecided("R-CLOSE.guard", "anchor: close(stopCh) and conn.Close() in closeConnToCollector", p.pos(cl.Pos()), "expected both calls in the internal close")
 		}
@@ -174,6 +208,7 @@ func runC14(p *Prog, r *Report, tier string) {
 		}
 	}
 	checkBackgroundStart(p, r, "R-WG.started")
+	checkTemplateElementsEmpty(p, r, "R-CLOSE.refresh-rebuild")
 	// stop observability + periodicity + close on failure
 	S := p.stopClosedSet([]string{"field:pkg/exporter.ExportingProcess.stopCh"}, bodies)
 	for i, b := range bodies {
